@@ -246,7 +246,10 @@ def classify(stage: str, case: dict, opts: dict, mprog: list[str] | None, mres: 
         return None
     if stage == "compile":
         return None
-    # exec / to_model / signature / run
+    if stage not in ("exec", "to_model"):
+        # every open finding is a *refusal* of the generated text by the converter; a round trip that completes with a
+        # different signature or different results is never known
+        return None
     if mprog and any(" forbreak " in ln for ln in mprog):
         return "C13-LOOP-BREAK"
     if opts["inline_const"] and f["inline_nonref"] and ub:
@@ -548,6 +551,61 @@ def gen_direct(rng, n: int, refusal_every: int = 9) -> list[dict]:
         meta = {"scheme": scheme, "flags": sorted(mg.flags), "refusal": refusal, "src": "direct"}
         cases.append(case_of_model(m, GEN.feeds_for(m, rng, 3), meta))
     return cases
+
+
+def gen_shapes(rng, n: int) -> list[dict]:
+    cases = []
+    for i in range(n):
+        m = GEN.shape_model(rng, i)
+        meta = {"scheme": "shapes", "flags": ["shapes"], "refusal": None, "src": "shapes"}
+        cases.append(case_of_model(m, GEN.feeds_for(m, rng, 2), meta))
+    return cases
+
+
+def type_stream(ctx: "Ctx", rng, n_random: int) -> None:
+    """onnx_type_to_onnxscript_repr vs TensorType.__class_getitem__/to_type_proto on generated tensor types:
+    the real functions against the Lean model (tie) and against each other (the round trip itself)."""
+    import onnxscript.onnx_types as OT
+
+    items = [0, 1, 3, "N", "M", None]
+    shapes: list = [None, []] + [[a] for a in items] + [[a, b] for a in items for b in items]
+    for _ in range(n_random):
+        shapes.append([rng.choice(items + [2, 7, "batch"]) for _ in range(rng.choice([3, 4]))])
+    dtypes = [v for v in sorted(TP.DataType.values())]
+    env = {k: getattr(OT, k) for k in dir(OT) if k.isupper()}
+    lines, jobs = [], []
+    for dt in dtypes:
+        for shp in (shapes if dt in (TP.FLOAT, TP.INT64, TP.BOOL) else rng.sample(shapes, 8)):
+            enc = "-" if shp is None else ("e" if shp == [] else ",".join(
+                f"i{d}" if isinstance(d, int) else ("u" if d is None else "s" + d.encode().hex()) for d in shp))
+            lines.append(f"type {dt} {enc}")
+            jobs.append((dt, shp))
+    outs = ctx.drv.ask(lines)
+    for (dt, shp), mo in zip(jobs, outs):
+        ctx.stats["type_evals"] += 1
+        tp = H.make_tensor_type_proto(dt, shp)
+        case = {"kind": "type", "dtype": dt, "shape": shp}
+        try:
+            text = OT.onnx_type_to_onnxscript_repr(tp, reversible=False)
+        except Exception as e:  # noqa: BLE001
+            text = "ERR:" + type(e).__name__
+        if text.startswith("ERR") or mo.startswith("ERR"):
+            if not (text.startswith("ERR") and mo.startswith("ERR")) and dt != 0:
+                ctx.tie_broken.append((case, None, f"type repr: model {mo} impl {text}"))
+            continue
+        try:
+            back = eval(text, dict(env)).to_type_proto()  # noqa: S307 - the exporter's own annotation text
+            got = L.type_sig(H.make_value_info("v", back))
+            real = f"{got[0]} " + ("-" if got[1] is None else "[" + ",".join(
+                f"i{d}" if isinstance(d, int) else ("u" if d is None else "s" + d) for d in got[1]) + "]")
+        except Exception as e:  # noqa: BLE001
+            got, real = None, "ERR:" + type(e).__name__
+        mtext, _, mback = mo.partition(" | ")
+        if mtext != text or mback != real:
+            ctx.tie_broken.append((case, None, f"type annotation: model `{mo}` impl `{text} | {real}`"))
+        want = L.type_sig(H.make_value_info("v", tp))
+        if got != want:
+            ctx.failures.append((case, None, "type", f"annotation {text} of type {want} converts back to {got}"))
 
 
 def gen_scripts(rng, n: int) -> list[dict]:
@@ -854,6 +912,8 @@ def _main(run: core.Run, ctx: Ctx, audit: dict) -> None:
     # 1. character-level stream for the clean-up function
     cleanup_stream(ctx, rng, run.size(1500, 20000))
 
+    type_stream(ctx, rng, run.size(40, 400))
+
     # 2. witnesses of the known findings, on the real code
     open_ids = {f["id"] for f in run.open_findings()}
     for fid, case, opts in witnesses():
@@ -873,7 +933,8 @@ def _main(run: core.Run, ctx: Ctx, audit: dict) -> None:
     scases, nrefused = gen_scripts(rng, n_script)
     ctx.stats["script_refused_by_converter"] = nrefused
     acases = gen_attr_functions(rng, n_attr)
-    allcases = cases + scases + acases
+    shcases = gen_shapes(rng, run.size(30, 200) * scale)
+    allcases = cases + scases + acases + shcases
     for c in allcases[:3] + scases[:2]:
         run.sample({"kind": c["kind"], "meta": {k: v for k, v in c["meta"].items() if k != "src"},
                     "text": onnx.printer.to_text(c["proto"])[:600]})  # fmt: skip
